@@ -32,7 +32,7 @@ pub fn try_pattern(p: &str, encode: bool) -> Outcome {
     let r = catch_panic(|| {
         enc.encode(
             &mut sink,
-            &Record::builder().level(Level::Info).target("tgt").module_path(Some("mp")).file(None).line(Some(7)).args(format_args!("msg")).build(),
+            &Record::builder().level(Level::Info).target("tgt").module_path(Some("mp")).file(None).line(Some(7)).args(format_args!("m\u{e9}s\u{20ac}g")).build(),
         )
     });
     match r {
@@ -294,6 +294,29 @@ pub fn run(ctx: &Ctx) -> Report {
                         rep.violation(format!("error-not-surfaced:{}", class), format!("pattern {:?} ({} error) rendered {:?} without an {{ERROR: marker", pat, class, s), json!({"pattern": pat}));
                     } else if !prefix.is_empty() && !s.starts_with("abINFO ") {
                         rep.violation("prefix-not-rendered", format!("pattern {:?} rendered {:?}", pat, s), json!({"pattern": pat}));
+                    }
+                }
+            }
+        }
+    }
+    // an error inside a group argument: the content of the group before it still renders
+    for c in ["h", "highlight", "", "D"] {
+        for (bad, _) in de.iter().filter(|(p, class)| *class != "syntax" && p.len() < 12).take(40).chain(de.iter().filter(|(_, class)| *class == "timezone")) {
+            for depth in 1..=2 {
+                let inner = format!("pre{{l}} {}", bad);
+                let pat = if depth == 1 { format!("{{{}({})}}", c, inner) } else { format!("{{{}(o{{t}}{{({})}})}}", c, inner) };
+                rep.add("evaluations", 1);
+                let want = if depth == 1 { "preINFO " } else { "otgtpreINFO " };
+                match try_pattern(&pat, true) {
+                    Outcome::PanicNew(m) | Outcome::PanicEncode(m) => rep.violation(format!("panic:{}", panic_site(&m)), format!("{:?}: {}", pat, m), json!({"pattern": pat})),
+                    Outcome::Err(..) => {}
+                    Outcome::Ok(out) => {
+                        let s = String::from_utf8_lossy(&out).into_owned();
+                        if !s.contains("{ERROR:") {
+                            rep.violation("error-not-surfaced:nested", format!("pattern {:?} rendered {:?} without an {{ERROR: marker", pat, s), json!({"pattern": pat}));
+                        } else if !s.starts_with(want) {
+                            rep.violation("prefix-not-rendered:inside-group", format!("pattern {:?} rendered {:?}; the content of the group before the error ({:?}) is missing", pat, s, want), json!({"pattern": pat}));
+                        }
                     }
                 }
             }
